@@ -59,7 +59,24 @@ fn declaration(ident_str: &str, cratename: Path, params_for_bounds: Vec<Type>) -
     }
 }
 
+/// does the predicate mention (anywhere, e.g. in `T: Into<U>`) a type parameter that is being dropped?
+fn mentions_dropped_param(predicate: &WherePredicate, dropped: &HashSet<Ident>) -> bool {
+    fn walk(tokens: TokenStream2, dropped: &HashSet<Ident>) -> bool {
+        tokens.into_iter().any(|tt| match tt {
+            proc_macro2::TokenTree::Ident(ident) => dropped.contains(&ident),
+            proc_macro2::TokenTree::Group(group) => walk(group.stream(), dropped),
+            _ => false,
+        })
+    }
+    walk(quote! { #predicate }, dropped)
+}
+
 fn filter_used_params(generics: &Generics, not_skipped_type_params: HashSet<Ident>) -> Generics {
+    let dropped_type_params: HashSet<Ident> = generics
+        .type_params()
+        .map(|param| param.ident.clone())
+        .filter(|ident| !not_skipped_type_params.contains(ident))
+        .collect();
     let new_params = generics
         .params
         .clone()
@@ -82,10 +99,12 @@ fn filter_used_params(generics: &Generics, not_skipped_type_params: HashSet<Iden
                 )]
                 match predicate {
                     WherePredicate::Lifetime(..) => true,
-                    WherePredicate::Type(predicate_type) => generics::type_contains_some_param(
-                        &predicate_type.bounded_ty,
-                        &not_skipped_type_params,
-                    ),
+                    WherePredicate::Type(predicate_type) => {
+                        generics::type_contains_some_param(
+                            &predicate_type.bounded_ty,
+                            &not_skipped_type_params,
+                        ) && !mentions_dropped_param(predicate, &dropped_type_params)
+                    }
 
                     _ => true,
                 }
